@@ -329,7 +329,10 @@ class ProcessCapabilityExchange():
         self.checklist_error_avps = 0
         self.is_valid = False
 
-        if message.header.flags == FLAG_REQUEST:
+        #: A request that may be a retransmission (T flag) is a request all
+        #: the same.
+        if message.header.flags in (FLAG_REQUEST,
+                                    FLAG_REQUEST_AND_RETRANSMITTED):
             self.process_request()
         elif message.header.flags == FLAG_RESPONSE:
             self.process_answer()
@@ -407,7 +410,10 @@ class ProcessDeviceWatchdog():
         self.checklist_error_avps = 0
         self.is_valid = False
 
-        if message.header.flags == FLAG_REQUEST:
+        #: A request that may be a retransmission (T flag) is a request all
+        #: the same.
+        if message.header.flags in (FLAG_REQUEST,
+                                    FLAG_REQUEST_AND_RETRANSMITTED):
             self.process_request()
         elif message.header.flags == FLAG_RESPONSE:
             self.process_answer()
@@ -468,7 +474,10 @@ class ProcessDisconnectPeer():
         self.checklist_error_avps = 0
         self.is_valid = False
 
-        if message.header.flags == FLAG_REQUEST:
+        #: A request that may be a retransmission (T flag) is a request all
+        #: the same.
+        if message.header.flags in (FLAG_REQUEST,
+                                    FLAG_REQUEST_AND_RETRANSMITTED):
             self.process_request()
         elif message.header.flags == FLAG_RESPONSE:
             self.process_answer()
